@@ -15,7 +15,7 @@ RevObserved(o) == IF o.rev = <<>> THEN <<>>
 
 ProbesOK(r, lb) == \A i \in 1..Len(r.out.probes) :
                       LET pr == r.out.probes[i] IN
-                      ~Judged(pr.p) \/ pr.m = TF(CompileOk(pr.p) /\ MatchL(pr.p, r.in.s, lb))
+                      ~Judged(pr.p) \/ LongRun(pr.p) \/ LongRun(r.in.s) \/ pr.m = TF(CompileOk(pr.p) /\ MatchL(pr.p, r.in.s, lb))
 
 PkgNameVerdict(r) ==
     IF ~Shape(r.out, {"name", "base", "ver", "rev", "sb", "sv", "probes"}) THEN "bad"
